@@ -312,3 +312,42 @@ def install(ex):
     ex.stub_prefixes = {
         "(*sync/atomic.Pointer[": {"Load": ta_load, "Store": ta_store, "CompareAndSwap": ta_cas},
     }
+
+
+def install_contracts(ex, names):
+    """Contract stubs: callee replaced by the contract that ANOTHER property's check establishes on the real code.
+    byteslice: Get(n) -> slice of length n, capacity >= n, exclusively owned memory with arbitrary content
+    (established by C12 on the real Pool.Get/Put/index); Put(buf) -> memory handed back (ghost 'released')."""
+    from .engine import ForkResult, GoPanic
+    S = ex.stubs
+    BS = "github.com/panjf2000/gnet/v2/pkg/pool/byteslice."
+
+    def bs_get_impl(ex, st, size):
+        def nil(s2):
+            return NIL_SLICE
+
+        def fresh(s2):
+            cap = ex.A.fresh(ex.fresh_name("bscap"), 64, True)
+            s2.pc.append(ex.A.cmp(">=", cap, size))
+            if not ex.bv:
+                s2.pc.append(cap <= (1 << 62))
+            base = ex.new_base("bsmem")
+            p = ex.alloc(s2, Bytes(base, cap), "bs")
+            return SliceV(p, 0, size, cap)
+        c = ex.A.cmp("<=", size, 0)
+        if c is True:
+            return NIL_SLICE
+        if c is False:
+            return fresh(st)
+        return ForkResult([(c, nil), (bnot(c), fresh)], lazy=True)
+
+    def bs_put_impl(ex, st, buf):
+        if buf.ptr is not None:
+            st.ghost["bs_released"] = st.ghost.get("bs_released", ()) + (buf.ptr.obj,)
+        return None
+
+    if "byteslice" in names:
+        S[BS + "Get"] = lambda ex, st, args, ins: bs_get_impl(ex, st, args[0])
+        S[BS + "Put"] = lambda ex, st, args, ins: bs_put_impl(ex, st, args[0])
+        S["(*" + BS + "Pool).Get"] = lambda ex, st, args, ins: bs_get_impl(ex, st, args[1])
+        S["(*" + BS + "Pool).Put"] = lambda ex, st, args, ins: bs_put_impl(ex, st, args[1])
